@@ -69,7 +69,7 @@ KNOWN_PREDICATES = {
 
 
 def plan(prop, tier, seed):
-    n, cases = (32, 650) if tier == "quick" else (320, 3500)
+    n, cases = (32, 650) if tier == "quick" else (320, 1800)
     return [{"kind": "random", "seed": run_seed(seed, prop, tier, i), "cases": cases, "want_sample": i < 2} for i in range(n)]
 
 
